@@ -41,7 +41,12 @@ Creds == [
   validupperc1             |-> [issued |-> TRUE,  cn |-> "C1"],
   validc2plusselfsignedc1  |-> [issued |-> TRUE,  cn |-> "c2"],
   validc2plusothercac1     |-> [issued |-> TRUE,  cn |-> "c2"],
-  validc1plusselfsignedsigner2 |-> [issued |-> TRUE, cn |-> "c1"]
+  validc1plusselfsignedsigner2 |-> [issued |-> TRUE, cn |-> "c1"],
+  \* the identity is that of THIS connection's certificate: a caller connecting from the very address (ip:port) that another
+  \* caller's connection used a moment ago (port reuse on one host or behind a NAT) is nobody but itself
+  validc2afterc1           |-> [issued |-> TRUE,  cn |-> "c2"],
+  validc1afterc2           |-> [issued |-> TRUE,  cn |-> "c1"],
+  validnobodyaftersigner2  |-> [issued |-> TRUE,  cn |-> "nobody"]
 ]
 CredIds == DOMAIN Creds
 Peers == {"signer-1", "signer-2"}
